@@ -693,4 +693,33 @@ def c20(ctx):
                       'update restores a verifying tree).')
 
 
-CHECKS = {'C20': c20, 'C19': c19, 'C17': c17, 'C06': c06, 'C16': c16, 'C15': c15, 'C14': c14, 'C05': c05, 'C11': c11, 'C03': c03, 'C10': c10, 'C12': c12, 'C13': c13, 'C01': c01, 'C02': c02, 'C04': c04, 'C07': c07, 'C08': c08, 'C09': c09}
+def c18(ctx):
+    from . import drv_outcome as d
+    thorough = ctx.tier == 'thorough'
+    n = 6000 if thorough else 260
+    out = core.pool_map(d.one_tree, [(ctx.seed, i, {}) for i in range(n)], chunksize=2)
+    out += core.pool_map(d.text_trees, [(ctx.seed * 16 + k, 400 if thorough else 50) for k in range(16)], chunksize=1)
+    recs = [r for o in out for r in o]
+    metas = [r.pop('meta') for r in recs]
+    for k in range(0, len(recs), 5000):
+        ctx.judge('TraceOutcome', 'TraceOutcome.cfg', recs[k:k + 5000], metas[k:k + 5000], {'module': 'TraceOutcome'},
+                  sig=lambda r: hash((r['cmd'], r['profile'], r['end'], r['exc'], len(r['s']['nodes']),
+                                      json_key([[e['tag'] for e in m['entries']] for m in r['s']['mfs']]))))
+    by = {}
+    for r in recs:
+        key = '%s %s%s' % (r['cmd'], r['end'], ':' + r['exc'] if r['end'] != 'ok' else '')
+        by[key] = by.get(key, 0) + 1
+    ctx.extra['endings'] = by
+    ctx.sample({'cmd': recs[3]['cmd'], 'end': recs[3]['end'], 'exc': recs[3]['exc'], 'notes': metas[3].get('notes')})
+    ctx.assumptions += ['C18 has no generator or Layer-A model of its own: it is the union of the other drivers\' inputs under one '
+                        'invariant on how a run may end (TraceOutcome.tla)',
+                        'an OSError is accepted only with an errno the projected tree explains (ENOENT / ENOTDIR / EISDIR / ELOOP / ENXIO)']
+    return ctx.finish(rule='trees of the C01 / C03 generators (mutations, unregistered Manifests) with odd Manifest lines injected '
+                      '(duplicate IGNORE, unknown / unsupported hash names, out-of-range and surrogate escapes, impossible timestamps, '
+                      'entries naming directories or lying beneath files, dangling MANIFEST entries, empty top-level Manifest) and '
+                      'the C09 grammar cases as top-level Manifests, run through `gemato verify` (tree, sub-directory, -k), '
+                      '`gemato update` (whole tree and sub-directory, all profiles, odd --hashes) and `gemato create` with every '
+                      'profile; every ending judged by TraceOutcome.tla.')
+
+
+CHECKS = {'C18': c18, 'C20': c20, 'C19': c19, 'C17': c17, 'C06': c06, 'C16': c16, 'C15': c15, 'C14': c14, 'C05': c05, 'C11': c11, 'C03': c03, 'C10': c10, 'C12': c12, 'C13': c13, 'C01': c01, 'C02': c02, 'C04': c04, 'C07': c07, 'C08': c08, 'C09': c09}
